@@ -1,1 +1,60 @@
-From VP Require Import Base.Tactics Zdd.Model Zdd.Props.
+(* Pins the C06 statements and prints what they depend on. Compiled on every run. *)
+From Coq Require Import String.
+From VP Require Import Base.Tactics Zdd.Model Zdd.Run Zdd.ProofsBase Zdd.ProofsOps Zdd.ProofsPwo Zdd.ProofsPwoTotal
+  Zdd.ProofsQuery Zdd.ProofsArena Zdd.ProofsSeq Zdd.ProofsStandalone Zdd.Props.
+Close Scope string_scope.
+Open Scope list_scope.
+
+Check (C06_arena_sequences : forall ops fs',
+  spec_run [] ops = Some fs' ->
+  exists ar hs out, aruns (arena0, []) ops [] = Some (ar, hs, out) /\ AInv ar /\ Rel ar hs fs').
+Check (C06_arena_sequences_conv : forall ops ar hs out,
+  aruns (arena0, []) ops [] = Some (ar, hs, out) ->
+  AInv ar /\ exists fs', spec_run [] ops = Some fs' /\ Rel ar hs fs').
+Check (C06_count : forall ar h F, AInv ar -> denotes ar h F ->
+  exists c l, count_f (S (length (atable ar))) (atable ar) h = Some c /\ c = N.of_nat (length l) /\
+    NoDup l /\ forall s, In s l <-> F s).
+Check (C06_contains : forall t r elems, wf t -> valid t r ->
+  exists b, contains_f (S (length t)) t r (norm_set elems) = Some b /\
+            (b = true <-> In_fam t r (norm_set elems))).
+Check (C06_iter : forall t r, wf t -> valid t r ->
+  exists l, iter_f (S (length t)) t r = Some l /\ forall s, In s l <-> In_fam t r s).
+Check (C06_standalone_union : forall x y, zwf x -> zwf y ->
+  exists z, z_union x y = Some z /\ zwf z /\ forall s, zmem z s <-> zmem x s \/ zmem y s).
+Check (C06_standalone_intersection : forall x y, zwf x -> zwf y ->
+  exists z, z_inter x y = Some z /\ zwf z /\ forall s, zmem z s <-> zmem x s /\ zmem y s).
+Check (C06_standalone_difference : forall x y, zwf x -> zwf y ->
+  exists z, z_diff x y = Some z /\ zwf z /\ forall s, zmem z s <-> zmem x s /\ ~ zmem y s).
+Check (C06_standalone_extend_optional : forall x v, zwf x ->
+  exists z, z_pwo x v = Some z /\ zwf z /\ forall s, zmem z s <-> PW v (zmem x) s).
+Check (C06_standalone_from_set : forall l, zwf (z_from_set l) /\ forall s, zmem (z_from_set l) s <-> s = norm_set l).
+Check (C06_standalone_singleton : forall v, zwf (z_single v) /\ forall s, zmem (z_single v) s <-> s = [v]).
+(* the explicit semantics the theorems refer to, pinned too *)
+Check (eq_refl : spec_step = fun fs o =>
+  match o with
+  | OBase => Some (fs ++ [fun s => s = []])
+  | OEmpty => Some (fs ++ [fun _ => False])
+  | OSingle v => Some (fs ++ [fun s => s = [v]])
+  | OFromSet l => Some (fs ++ [fun s => s = norm_set l])
+  | OPwo h v => match nth_error fs h with Some F => Some (fs ++ [PW v F]) | None => None end
+  | OUnion a b => match nth_error fs a with Some A => match nth_error fs b with Some B => Some (fs ++ [fun s => A s \/ B s]) | None => None end | None => None end
+  | OInter a b => match nth_error fs a with Some A => match nth_error fs b with Some B => Some (fs ++ [fun s => A s /\ B s]) | None => None end | None => None end
+  | ODiff a b => match nth_error fs a with Some A => match nth_error fs b with Some B => Some (fs ++ [fun s => A s /\ ~ B s]) | None => None end | None => None end
+  | OProduct _ _ => None
+  | OCount h => match nth_error fs h with Some _ => Some fs | None => None end
+  | OGc keep => nths fs keep
+  end).
+Check (eq_refl : PW = fun v F s => F s \/ exists s0, F s0 /\ s = ins v s0).
+Check (eq_refl : denotes = fun ar h F => valid (atable ar) h /\ forall s, In_fam (atable ar) h s <-> F s).
+
+Print Assumptions C06_arena_sequences.
+Print Assumptions C06_arena_sequences_conv.
+Print Assumptions C06_count.
+Print Assumptions C06_contains.
+Print Assumptions C06_iter.
+Print Assumptions C06_standalone_union.
+Print Assumptions C06_standalone_intersection.
+Print Assumptions C06_standalone_difference.
+Print Assumptions C06_standalone_extend_optional.
+Print Assumptions C06_standalone_from_set.
+Print Assumptions C06_standalone_singleton.
